@@ -457,6 +457,13 @@ func (x *Exec) subAddr(si *StructI, i int, addr Term) Term {
 		x.axioms[f] = []string{fmt.Sprintf("(forall ((a!s Int)) (! (=> (not (= a!s 0)) (not (= (%s a!s) 0))) :pattern ((%s a!s))))", f, f),
 			// an embedded struct lives inside its enclosing object: both existed at entry, or neither
 			fmt.Sprintf("(forall ((a!s Int)) (! (= (< (%s a!s) brk!) (< a!s brk!)) :pattern ((%s a!s))))", f, f)}
+		// an embedded struct belongs to the same object as its container, one level
+		// deeper, and the embedding is injective
+		x.declareFun("objof", []Sort{SInt}, SInt)
+		x.declareFun("depthof", []Sort{SInt}, SInt)
+		inv := x.declareFun("inv!"+f, []Sort{SInt}, SInt)
+		x.axioms[f] = append(x.axioms[f],
+			fmt.Sprintf("(forall ((a!s Int)) (! (and (= (objof (%s a!s)) (objof a!s)) (= (depthof (%s a!s)) (+ (depthof a!s) 1)) (= (%s (%s a!s)) a!s)) :pattern ((%s a!s))))", f, f, inv, f, f))
 		// two embedded structs of the same type in one object occupy different addresses
 		for j, g := range si.Fields {
 			if j != i && isStruct(g.Ty) && g.Sort == si.Fields[i].Sort {
